@@ -102,6 +102,8 @@ void explore13(Options const& o, std::vector<Shim*> const& shims, std::vector<Sh
       rec.add_states(S.size(), S.size(), S.size() * 2);
       }
       sweep_un_set(s, SQ_OPS[oi], Sneg, o.threads, rec, ob | (2ull << 48), [&](i64 x, i64 got, u64 ord, LocalViol& lv) { c.val(s, oi, x, got, ord, lv); });
+      // two-call histories with aliased arguments (state kept between calls)
+      sweep_alias_histories(s, SQ_OPS[oi], -LIM47, LIM47 - 1, rec, ob | (5ull << 48), [&](i64 x, i64 got, u64 ord, HistViol& hv) { c.val(s, oi, x, got, ord, hv); });
       // arguments just below (and just above) the squares of k = 2^15*j +- t: x*2^16 = k^2 - t^2, the rounding boundary of every
       // square-root implementation (a correctly rounded floating-point root returns exactly k there)
       {
@@ -261,6 +263,28 @@ void replay14(Options const& o, Shim* s, Recorder& rec)
          if( h != h2 || h != h3 ) rec.viol(c.c_sym, 0, [&]{ return ex1(s, "hypot symmetry", "", {{"a",to_s(a)},{"b",to_s(b)}}, "all equal", to_s(h) + ", " + to_s(h2) + ", " + to_s(h3), o.rcase, o.rin); }); }
   rec.add_states(1,1,1);
   }
+bool judge13(Shim* s, Recorder& rec, std::string const& kind, std::vector<u64> const& a, u64 value, u64 idx)
+  {
+  if( !(kind == "un" && a.size() == 2) ) return false;
+  int oi = a[0] == U_SQRT_ABACUS ? 0 : a[0] == U_SQRT_STD ? 1 : a[0] == U_SQRT ? 2 : -1;
+  if( oi < 0 ) return false;
+  C13 c(rec); DirectViol d{rec};
+  i64 x = static_cast<i64>(a[1]), got = static_cast<i64>(value);
+  if( x >= LIM47 || (!fx_finite(x) && !fx_isnan(x)) ) return true;
+  c.val(s, oi, x, got, idx, d);
+  if( x >= 0 ) { i64 r = static_cast<i64>(std::llround(std::sqrt(static_cast<long double>(x)))); if( r * r == x && got != r * 256 ) rec.viol(c.c_square[oi], idx, [&]{ return ex1(s, SQ_N[oi], "exact square", {{"x",to_s(x)}}, to_s(r * 256), to_s(got), "val", {}); }); }
+  return true;
+  }
+bool judge14(Shim* s, Recorder& rec, std::string const& kind, std::vector<u64> const& a, u64 value, u64 idx)
+  {
+  if( !(kind == "bin" && a.size() == 3 && a[0] == B_HYPOT) ) return false;
+  C14 c(rec); DirectViol d{rec};
+  i64 x = static_cast<i64>(a[1]), y = static_cast<i64>(a[2]);
+  if( x > -LIM47 && x < LIM47 && y > -LIM47 && y < LIM47 ) c.val(s, x, y, static_cast<i64>(value), idx, d);
+  return true;
+  }
 }
 REGISTER_PROPERTY(C13, explore13, replay13)
+REGISTER_JUDGE(C13, judge13)
+REGISTER_JUDGE(C14, judge14)
 REGISTER_PROPERTY(C14, explore14, replay14)
